@@ -406,7 +406,7 @@ merge_harness!(c17t_conc_merge_b1_3_2, 3, 2, 1, 4);
 merge_harness!(c17t_conc_merge_b1_3_3, 3, 3, 1, 4);
 find_harness!(c17t_conc_find_b1_0, 0, 1, 4);
 find_harness!(c17t_conc_find_b1_1, 1, 1, 4);
-sameset_harness!(c17t_conc_sameset_b1_2_3, 2, 3, 1, 4);
+sameset_harness!(c17_conc_sameset_b1_2_3, 2, 3, 1, 4);
 sameset_harness!(c17t_conc_sameset_b1_1_3, 1, 3, 1, 4);
 
 // ---- B = 2 (thorough) ----
